@@ -17,6 +17,8 @@ from __future__ import annotations
 
 import itertools
 import math
+import os
+import signal
 import struct
 import warnings
 
@@ -458,12 +460,52 @@ def real_encode(generic):
     return convert_generic_body_to_phs(generic, "acc", PatternRewriter(generic))
 
 
+# Every call into the implementation is bounded.  decode's search_mapping validates an assignment only when
+# all muxes are assigned (2^m leaves, no pruning), so a changed combine/decode that adds muxes or loses the valid
+# assignment makes one decode call run for hours; any other non-terminating change would do the same.  The bound
+# is on the CPU time of this process (ITIMER_VIRTUAL: independent of the load of the machine and of the
+# SIGALRM watchdog of check.py).  A call that exceeds it is reported as a failure with the input (klass None).
+IMPL_BUDGET = float(os.environ.get("VERIF_C20_CALL_BUDGET", "30"))
+# unchanged code: 2^15 leaves take about 1.3 s; graphs with more muxes than this are not decoded (counted in the
+# histogram as skipped_muxes): domain bound of L1/L2, the theorems have no such bound
+MAX_MUXES = 16
+TIMEOUT = "TIMEOUT"
+
+
+class ImplTimeout(BaseException):
+    """not an Exception: an `except Exception` inside the implementation must not swallow it"""
+
+
+def _on_vtalrm(signum, frame):
+    raise ImplTimeout()
+
+
 def guarded(f, *a):
-    """Returns (result, None) or (None, exception repr)."""
+    """Returns (result, None) or (None, exception repr); (None, "TIMEOUT: ...") when the call exceeds IMPL_BUDGET."""
+    old = signal.signal(signal.SIGVTALRM, _on_vtalrm)
+    signal.setitimer(signal.ITIMER_VIRTUAL, IMPL_BUDGET)
     try:
-        return f(*a), None
+        r = f(*a)
+        signal.setitimer(signal.ITIMER_VIRTUAL, 0)
+        return r, None
+    except ImplTimeout:
+        return None, f"{TIMEOUT}: {getattr(f, '__qualname__', f)} did not return within {IMPL_BUDGET:g} s of CPU time"
     except Exception as e:  # noqa: BLE001 — any exception of the implementation maps to the model's None
+        if type(e).__name__ == "CheckTimeout":  # the watchdog of check.py is not an answer of the implementation
+            raise
         return None, f"{type(e).__name__}: {e}"[:160]
+    finally:
+        signal.setitimer(signal.ITIMER_VIRTUAL, 0)
+        signal.signal(signal.SIGVTALRM, old)
+
+
+def is_timeout(err):
+    return bool(err) and err.startswith(TIMEOUT)
+
+
+def n_muxes(pe):
+    from snaxc.dialects import phs
+    return sum(isinstance(o, phs.MuxOp) for o in pe.body.ops)
 
 
 # ---------------------------------------------------------------- L2 interpreter (implementation side only)
@@ -693,7 +735,7 @@ def check_history(rng, texts, order, ninputs=None):
     fails = []
     gens = [parse_generic(texts[i]) for i in order]
     G = None
-    info = {"muxes": 0, "alts": 0, "decoded": 0, "skipped": False}
+    info = {"muxes": 0, "alts": 0, "decoded": 0, "skipped": False, "skipped_muxes": False}
     ar = set()
     for t in texts:
         pe0, err = guarded(real_encode, parse_generic(t))
@@ -706,14 +748,16 @@ def check_history(rng, texts, order, ninputs=None):
     for step, gen in enumerate(gens):
         pe, err = guarded(real_encode, gen)
         if err:
-            fails.append(dict(what="encode raised", step=step, detail=err, klass="loud_error"))
+            fails.append(dict(what="encode hangs" if is_timeout(err) else "encode raised", step=step, detail=err,
+                              klass=None if is_timeout(err) else "loud_error"))
             return fails, info
         if G is None:
             G = pe
         else:
             _, err = guarded(append_to_abstract_graph, pe, G)
             if err:
-                fails.append(dict(what="append raised", step=step, detail=err, klass="loud_error"))
+                fails.append(dict(what="append hangs" if is_timeout(err) else "append raised", step=step, detail=err,
+                                  klass=None if is_timeout(err) else "loud_error"))
                 return fails, info
         _, err = guarded(G.verify)
         if err:
@@ -725,11 +769,18 @@ def check_history(rng, texts, order, ninputs=None):
         if err:
             fails.append(dict(what="get_true_switches raised", step=step, detail=err, klass=None))
             return fails, info
+        if n_muxes(G) > MAX_MUXES:
+            # the implementation's search is 2^muxes: not decoded (later steps only add muxes)
+            info["skipped_muxes"] = True
+            break
         for j in range(step + 1):
             genj = parse_generic(texts[order[j]])
             gj = real_encode(genj)
             sw, err = guarded(decode_abstract_graph, G, gj)
             conflict = attr_conflict(G, gj)
+            if is_timeout(err):
+                fails.append(dict(what="decode hangs", step=step, kernel=j, detail=err, klass=None))
+                return fails, info
             if err:
                 fails.append(dict(what="kernel no longer decodable", step=step, kernel=j, detail=err,
                                   klass="not_distinct_by_type" if conflict else None))
@@ -747,7 +798,7 @@ def check_history(rng, texts, order, ninputs=None):
                     fails.append(dict(what="merged PE computes another function", step=step, kernel=j,
                                       detail=dict(switches=list(sw), inputs=ins, expected=repr(want),
                                                   got=repr(got) if not err else err, pe=str(G)[:2500]),
-                                      klass="not_distinct_by_type" if conflict else None))
+                                      klass="not_distinct_by_type" if conflict and not is_timeout(err) else None))
                     break
     from snaxc.dialects import phs
     info["muxes"] = sum(isinstance(o, phs.MuxOp) for o in G.body.ops)
@@ -780,6 +831,8 @@ def search(ctx, deep=False):
         if info["skipped"]:
             ctx.histogram["L2:skipped_interface"] = ctx.histogram.get("L2:skipped_interface", 0) + 1
             continue
+        if info["skipped_muxes"]:
+            ctx.histogram["L2:skipped_muxes"] = ctx.histogram.get("L2:skipped_muxes", 0) + 1
         ctx.count({"L2": stream, "kernels": len(texts), "order": order, "muxes": info["muxes"], "alts": info["alts"]},
                   info["muxes"] > 0 or info["alts"] > 1, "l2" + "".join(texts) + str(order), f"L2:{stream}:{len(texts)}")
     return _dedup(fails)
@@ -796,73 +849,96 @@ def _dedup(fails):
 
 
 # ---------------------------------------------------------------- L1
-def correspondence(ctx):
+def _l1_history(ctx, conv, cases, meta, pre, texts, order):
     from snaxc.phs.combine import append_to_abstract_graph
     from snaxc.phs.decode import decode_abstract_graph
+    G = None
+    for step, ki in enumerate(order):
+        gen = parse_generic(texts[ki])
+        b = conv.body(gen)
+        pe, err = guarded(real_encode, gen)
+        if is_timeout(err):
+            pre.append({"name": "L1:hang", "case": dict(texts=texts, order=order, step=step), "detail": err})
+            return
+        cpe = None if err else conv.pe(pe)
+        cases["enc"].append(f"({c_body(b)}, {c_optpe(cpe)})")
+        meta["enc"].append(dict(text=texts[ki], err=err))
+        ctx.count({"L1": "encode", "body": texts[ki]}, len(b[1]) > 1, "enc" + texts[ki], "L1:encode")
+        if err:
+            break
+        # what the theorems assume of an encoded kernel graph (concrete, unique ids, well-formed)
+        cases["kok"].append(c_pe(cpe))
+        meta["kok"].append(dict(text=texts[ki]))
+        if G is None:
+            G = pe
+        else:
+            before = conv.pe(G)
+            if _max_arg(cpe) >= before[0]:
+                # outside the model's domain (ASSUMPTIONS): the graph addresses a data argument the abstract
+                # graph does not have; the Python then picks a switch argument or raises
+                ctx.histogram["L1:skipped_interface"] = ctx.histogram.get("L1:skipped_interface", 0) + 1
+                break
+            _, err = guarded(append_to_abstract_graph, pe, G)
+            if is_timeout(err):
+                pre.append({"name": "L1:hang", "case": dict(texts=texts, order=order, step=step), "detail": err})
+                return
+            after = None if err else conv.pe(G)
+            cases["app"].append(f"({c_pe(cpe)}, {c_pe(before)}, {c_optpe(after)})")
+            meta["app"].append(dict(texts=texts, order=order, step=step, err=err))
+            ctx.count({"L1": "append", "step": step}, after is not None and after != before,
+                      "app" + "".join(texts) + str(order) + str(step), "L1:append")
+            if err:
+                break
+        cG = conv.pe(G)
+        tsw, err = guarded(G.get_true_switches)
+        cases["tsw"].append(f"({c_pe(cG)}, {c_optnat(tsw)})")
+        meta["tsw"].append(dict(texts=texts, order=order, step=step, err=err))
+        ctx.count({"L1": "true_switches"}, bool(tsw), None, "L1:true_switches")
+        # the structural well-formedness the theorems assume of a merged graph (decidable, checked here on
+        # every real merged graph)
+        cases["wf"].append(c_pe(cG))
+        meta["wf"].append(dict(texts=texts, order=order, step=step))
+        # class predicate of C20-F2: the model's block_ordered against SSA dominance in the real block
+        cases["ord"].append(f"({c_pe(cG)}, {'true' if block_ordered(G) else 'false'})")
+        meta["ord"].append(dict(texts=texts, order=order, step=step))
+        # decode every kernel of the history (also the ones not merged yet: error / default paths)
+        merged = set(order[:step + 1])
+        extra = order[step + 1] if step + 1 < len(order) else None
+        if n_muxes(G) > MAX_MUXES:
+            # search_mapping (and the model's search) is 2^muxes: such graphs are not decoded
+            ctx.histogram["L1:skipped_muxes"] = ctx.histogram.get("L1:skipped_muxes", 0) + 1
+            continue
+        for kj in range(len(texts)):
+            if kj not in merged and kj != extra:
+                continue
+            gj = real_encode(parse_generic(texts[kj]))
+            cg = conv.pe(gj)
+            sw, err = guarded(decode_abstract_graph, G, gj)
+            if is_timeout(err):
+                pre.append({"name": "L1:hang", "case": dict(texts=texts, order=order, step=step, kernel=kj), "detail": err})
+                return
+            cases["dec"].append(f"({cG_lit(cG)}, {c_pe(cg)}, {c_optzl(None if err else list(sw))})")
+            meta["dec"].append(dict(texts=texts, order=order, step=step, kernel=kj, err=err, sw=None if err else list(sw)))
+            ctx.count({"L1": "decode", "switches": None if err else list(sw)}, bool(sw),
+                      "dec" + "".join(texts) + str(order) + str(step) + str(kj), "L1:decode")
+
+
+def correspondence(ctx):
     rng = ctx.rng
     n = ctx.n(60, 600)
     _REG.clear()
     cases = {k: [] for k in ("enc", "app", "dec", "tsw", "wf", "kok", "ord")}
     meta = {k: [] for k in cases}
     conv = Conv()
+    pre = []  # disagreements found on the Python side: the implementation hangs / returns a graph outside the PE form
     for i in range(n):
         texts, order, stream = gen_case(rng, i)
-        G = None
-        for step, ki in enumerate(order):
-            gen = parse_generic(texts[ki])
-            b = conv.body(gen)
-            pe, err = guarded(real_encode, gen)
-            cpe = None if err else conv.pe(pe)
-            cases["enc"].append(f"({c_body(b)}, {c_optpe(cpe)})")
-            meta["enc"].append(dict(text=texts[ki], err=err))
-            ctx.count({"L1": "encode", "body": texts[ki]}, len(b[1]) > 1, "enc" + texts[ki], "L1:encode")
-            if err:
-                break
-            # what the theorems assume of an encoded kernel graph (concrete, unique ids, well-formed)
-            cases["kok"].append(c_pe(cpe))
-            meta["kok"].append(dict(text=texts[ki]))
-            if G is None:
-                G = pe
-            else:
-                before = conv.pe(G)
-                if _max_arg(cpe) >= before[0]:
-                    # outside the model's domain (ASSUMPTIONS): the graph addresses a data argument the abstract
-                    # graph does not have; the Python then picks a switch argument or raises
-                    ctx.histogram["L1:skipped_interface"] = ctx.histogram.get("L1:skipped_interface", 0) + 1
-                    break
-                _, err = guarded(append_to_abstract_graph, pe, G)
-                after = None if err else conv.pe(G)
-                cases["app"].append(f"({c_pe(cpe)}, {c_pe(before)}, {c_optpe(after)})")
-                meta["app"].append(dict(texts=texts, order=order, step=step, err=err))
-                ctx.count({"L1": "append", "step": step}, after is not None and after != before,
-                          "app" + "".join(texts) + str(order) + str(step), "L1:append")
-                if err:
-                    break
-            cG = conv.pe(G)
-            tsw, err = guarded(G.get_true_switches)
-            cases["tsw"].append(f"({c_pe(cG)}, {c_optnat(tsw)})")
-            meta["tsw"].append(dict(texts=texts, order=order, step=step, err=err))
-            ctx.count({"L1": "true_switches"}, bool(tsw), None, "L1:true_switches")
-            # the structural well-formedness the theorems assume of a merged graph (decidable, checked here on
-            # every real merged graph)
-            cases["wf"].append(c_pe(cG))
-            meta["wf"].append(dict(texts=texts, order=order, step=step))
-            # class predicate of C20-F2: the model's block_ordered against SSA dominance in the real block
-            cases["ord"].append(f"({c_pe(cG)}, {'true' if block_ordered(G) else 'false'})")
-            meta["ord"].append(dict(texts=texts, order=order, step=step))
-            # decode every kernel of the history (also the ones not merged yet: error / default paths)
-            merged = set(order[:step + 1])
-            extra = order[step + 1] if step + 1 < len(order) else None
-            for kj in range(len(texts)):
-                if kj not in merged and kj != extra:
-                    continue
-                gj = real_encode(parse_generic(texts[kj]))
-                cg = conv.pe(gj)
-                sw, err = guarded(decode_abstract_graph, G, gj)
-                cases["dec"].append(f"({cG_lit(cG)}, {c_pe(cg)}, {c_optzl(None if err else list(sw))})")
-                meta["dec"].append(dict(texts=texts, order=order, step=step, kernel=kj, err=err, sw=None if err else list(sw)))
-                ctx.count({"L1": "decode", "switches": None if err else list(sw)}, bool(sw),
-                          "dec" + "".join(texts) + str(order) + str(step) + str(kj), "L1:decode")
+        try:
+            _l1_history(ctx, conv, cases, meta, pre, texts, order)
+        except ConvError as e:
+            # the converter is total on what the real functions return on the unchanged tree; a graph it rejects
+            # (dangling or shared mux, foreign operand ...) is not a PE graph of the model: disagreement
+            pre.append({"name": "L1:converter", "case": dict(texts=texts, order=order), "detail": f"ConvError: {e}"})
     tests = {
         "enc": "fun c : body * option pe => opt_eqb pe_eqb (encode (fst c)) (snd c)",
         "app": "fun c : pe * pe * option pe => match c with (g, G, r) => opt_eqb pe_eqb (append g G) r end",
@@ -892,7 +968,7 @@ def correspondence(ctx):
             t.append(f"Eval vm_compute in failing ({tests[k]}) cases_{k}.")
         texts_out.append("\n".join(t) + "\n")
     res = vlib.coq_eval_many("c20_", texts_out, timeout=900, par=NSH)
-    dis = []
+    dis = list(pre)
     for sh, (ok, out) in zip(shards, res):
         lists = vlib.parse_all_eval_lists(out)
         if not ok or len(lists) != len(kinds):
